@@ -150,3 +150,246 @@ func init() {
 		guardT(t, prog, func() { caseC10Readers(t, prog) })
 	}})
 }
+
+// TestC10Switch: async writes are switched off and on again through Create, back to back, on a
+// real (scaled) clock while many writes are pending - so the flusher of the old settings is
+// still on its way out when the new settings arrive. Writes accepted afterwards must reach the
+// disk by threshold or timeout without any further call.
+func TestC10Switch(t *testing.T) {
+	if !instrumented() {
+		t.Skip("needs the instrumented build")
+	}
+	if f := flag.Lookup("rapid.checks"); f != nil {
+		old := f.Value.String()
+		if n, err := strconv.Atoi(old); err == nil {
+			flag.Set("rapid.checks", strconv.Itoa(1+n/4))
+			defer flag.Set("rapid.checks", old)
+		}
+	}
+	rapid.Check(t, func(rt *rapid.T) {
+		g := NewG(rt, &Profile{Property: "C10", TinyBias: 60})
+		cfg := Config{Ext: ".json", Cache: g.pct("cache") < 50,
+			Async: &AsyncCfg{Threshold: 100000, TimeoutMs: 3600000},
+			Cons:  map[string]Cons{"I64": {Index: true}}}
+		var toggles []int // 0: off, n>0: on with timeout n*100 ms
+		for i, k := 0, 1+g.uni(3, "ntoggles"); i < k; i++ {
+			toggles = append(toggles, 0, 1+g.uni(5, "to"))
+		}
+		prog := &Program{Property: "C10", Cfg: cfg, Aux: map[string]interface{}{
+			"switch": toggles, "pending": pickU(g, []int{0, 3, 300, 1500, 4000}, "pending"), "thr": 1 + g.uni(5, "thr"), "byTimeout": g.pct("bytimeout") < 50,
+			"pause": pickU(g, []int{0, 0, 1, 20}, "pause")}}
+		guard(rt, prog, func() { caseC10Switch(rt, prog) })
+	})
+}
+
+func caseC10Switch(t TB, prog *Program) {
+	st := statsFor("C10")
+	var toggles []int
+	reJSON(prog.Aux["switch"], &toggles)
+	pending, thr, pause := auxInt(prog.Aux, "pending"), auxInt(prog.Aux, "thr"), auxInt(prog.Aux, "pause")
+	byTimeout, _ := prog.Aux["byTimeout"].(bool)
+	vshim.ResetClock()
+	vshim.SetClock(vshim.ClockScaled, 20)
+	defer vshim.SetClock(vshim.ClockReal, 1)
+	e := NewEnv(t, prog, RunOpts{NoObs: true})
+	defer e.Teardown()
+	db := e.db
+	// many writes pending under settings that never flush on their own
+	var batch []sod.Object
+	for i := 0; i < pending; i++ {
+		batch = append(batch, &Doc{I64: int64(i), S: "pending"})
+	}
+	if len(batch) > 0 {
+		if _, err := db.InsertOrUpdateMany(batch...); err != nil {
+			e.failf("prefill: %v", err)
+		}
+	}
+	time.Sleep(time.Duration(pause) * time.Millisecond)
+	lastTo := 0
+	for _, tg := range toggles {
+		c := e.cfg
+		if tg == 0 {
+			c.Async = nil
+		} else {
+			c.Async = &AsyncCfg{Threshold: thr, TimeoutMs: 100 * tg}
+			lastTo = 100 * tg
+		}
+		if err := db.Create(&Doc{}, c.Schema()); err != nil {
+			e.failf("Create (async %v): %v", tg != 0, err)
+		}
+	}
+	n := thr
+	if byTimeout && n > 1 {
+		n--
+	}
+	var ids []string
+	for i := 0; i < n; i++ {
+		d := &Doc{I64: int64(100000 + i), S: "awaited"}
+		if err := db.InsertOrUpdate(d); err != nil {
+			e.failf("insert: %v", err)
+		}
+		ids = append(ids, d.UUID())
+	}
+	onDisk := func() int {
+		w := WalkDir(e.collDir())
+		k := 0
+		for _, id := range ids {
+			if f, ok := w.Objects[id]; ok && f.Err == "" && len(f.Body) > 0 {
+				k++
+			}
+		}
+		return k
+	}
+	// no further call; database time runs 20x faster (timeout <= 500 ms = 25 ms real)
+	deadline := time.Now().Add(6 * time.Second)
+	for onDisk() < len(ids) && time.Now().Before(deadline) {
+		time.Sleep(2 * time.Millisecond)
+	}
+	if got := onDisk(); got < len(ids) {
+		e.failf("async writes were switched off and on again (%v; %d writes pending before, threshold now %d, timeout now %d ms); %d writes accepted afterwards waited 6 s of real time = 120 s of database time without any further call, %d of them reached the disk", toggles, pending, thr, lastTo, len(ids), got)
+	}
+	flags := map[string]int{"async-off-on-back-to-back": 1, fmt.Sprintf("pending-before-%d", pending): 1}
+	st.Case(prog.Hash(), pending >= 300, flags, func() interface{} { return prog })
+}
+
+func init() {
+	replayAlts = append(replayAlts, replayAlt{"C10", hasAux("switch"), func(t *testing.T, prog *Program) {
+		guardT(t, prog, func() { caseC10Switch(t, prog) })
+	}})
+}
+
+// TestC10Hammer: several writers keep updating their own objects (each object has exactly one
+// writer, so its last accepted value is known) while the flusher fires all the time on a scaled
+// clock; hundreds of writes are pending at once. After Close a fresh handle must read, for every
+// object, the last value its writer got accepted - no update may be overtaken by an older copy
+// on its way to the disk.
+func TestC10Hammer(t *testing.T) {
+	if !instrumented() {
+		t.Skip("needs the instrumented build")
+	}
+	if f := flag.Lookup("rapid.checks"); f != nil {
+		old := f.Value.String()
+		if n, err := strconv.Atoi(old); err == nil {
+			flag.Set("rapid.checks", strconv.Itoa(1+n/20))
+			defer flag.Set("rapid.checks", old)
+		}
+	}
+	rapid.Check(t, func(rt *rapid.T) {
+		g := NewG(rt, &Profile{Property: "C10", TinyBias: 60})
+		cfg := Config{Ext: ".json", Cache: g.pct("cache") < 50, Compress: g.pct("compress") < 15,
+			Async: &AsyncCfg{Threshold: pickU(g, []int{1, 5, 100, 1000, 100000}, "thr"), TimeoutMs: 100 * (1 + g.uni(3, "to"))},
+			Cons:  map[string]Cons{"I64": {Index: true}}}
+		prog := &Program{Property: "C10", Cfg: cfg, Aux: map[string]interface{}{
+			"hammer": 2 + g.uni(5, "writers"), "objects": 40 + g.uni(160, "objects"), "ms": 60 + g.uni(200, "ms"), "batch": g.pct("batch") < 30}}
+		guard(rt, prog, func() { caseC10Hammer(rt, prog) })
+	})
+}
+
+func caseC10Hammer(t TB, prog *Program) {
+	st := statsFor("C10")
+	writers, perWriter, ms := auxInt(prog.Aux, "hammer"), auxInt(prog.Aux, "objects"), auxInt(prog.Aux, "ms")
+	batch, _ := prog.Aux["batch"].(bool)
+	vshim.ResetClock()
+	vshim.SetClock(vshim.ClockScaled, 20)
+	defer vshim.SetClock(vshim.ClockReal, 1)
+	e := NewEnv(t, prog, RunOpts{NoObs: true})
+	defer e.Teardown()
+	db := e.db
+	type slot struct {
+		id   string
+		last int64
+	}
+	slots := make([][]slot, writers)
+	var wg sync.WaitGroup
+	var failed atomic.Value
+	var maxPending int64
+	stop := time.Now().Add(time.Duration(ms) * time.Millisecond)
+	for w := 0; w < writers; w++ {
+		w := w
+		slots[w] = make([]slot, perWriter)
+		wg.Add(1)
+		go func() {
+			defer wg.Done()
+			mine := slots[w]
+			for round := int64(1); time.Now().Before(stop) || round <= 2; round++ {
+				if batch && round%3 == 0 {
+					var objs []sod.Object
+					for i := range mine {
+						d := &Doc{I64: int64(w), I: int(round), S: "hammer"}
+						if mine[i].id != "" {
+							d.Initialize(mine[i].id)
+						}
+						objs = append(objs, d)
+					}
+					if _, err := db.InsertOrUpdateMany(objs...); err != nil {
+						failed.Store(fmt.Sprintf("InsertOrUpdateMany: %v", err))
+						return
+					}
+					for i, o := range objs {
+						mine[i] = slot{o.UUID(), round}
+					}
+					continue
+				}
+				for i := range mine {
+					d := &Doc{I64: int64(w), I: int(round), S: "hammer"}
+					if mine[i].id != "" {
+						d.Initialize(mine[i].id)
+					}
+					if err := db.InsertOrUpdate(d); err != nil {
+						failed.Store(fmt.Sprintf("InsertOrUpdate: %v", err))
+						return
+					}
+					mine[i] = slot{d.UUID(), round}
+				}
+				if w == 0 {
+					// how many objects lag behind on disk right now? (evidence only)
+					if n, err := db.Count(&Doc{}); err == nil {
+						if lag := int64(n - len(WalkDir(e.collDir()).Objects)); lag > atomic.LoadInt64(&maxPending) {
+							atomic.StoreInt64(&maxPending, lag)
+						}
+					}
+				}
+			}
+		}()
+	}
+	wg.Wait()
+	if msg := failed.Load(); msg != nil {
+		e.failf("%v", msg)
+	}
+	if err := db.Close(); err != nil {
+		e.failf("Close: %v", err)
+	}
+	e.db = nil
+	db2 := sod.Open(e.root)
+	defer db2.Close()
+	total := 0
+	for w := range slots {
+		for _, sl := range slots[w] {
+			total++
+			got, err := db2.GetByUUID(&Doc{}, sl.id)
+			if err != nil {
+				e.failf("after Close and Open: object %s of writer %d (last accepted update: round %d): %v", sl.id, w, sl.last, err)
+			}
+			if d := got.(*Doc); int64(d.I) != sl.last || d.I64 != int64(w) {
+				e.failf("after Close and Open: object %s of writer %d holds round %d, the last update its writer got accepted was round %d (%d writers x %d objects, threshold %d, timeout %d ms)", sl.id, w, d.I, sl.last, writers, perWriter, e.cfg.Async.Threshold, e.cfg.Async.TimeoutMs)
+			}
+		}
+	}
+	if n, err := db2.Count(&Doc{}); err != nil || n != total {
+		e.failf("after Close and Open: Count=%d err=%v, %d objects were stored", n, err, total)
+	}
+	if err := db2.Control(); err != nil {
+		e.failf("after Close and Open: Control: %v", err)
+	}
+	flags := map[string]int{"writers-hammering-under-flusher": 1}
+	if atomic.LoadInt64(&maxPending) > 256 {
+		flags["more-than-256-writes-pending-at-once"] = 1
+	}
+	st.Case(prog.Hash(), writers*perWriter > 256, flags, func() interface{} { return prog })
+}
+
+func init() {
+	replayAlts = append(replayAlts, replayAlt{"C10", hasAux("hammer"), func(t *testing.T, prog *Program) {
+		guardT(t, prog, func() { caseC10Hammer(t, prog) })
+	}})
+}
